@@ -999,15 +999,19 @@ class RewriteAtQuery(NodeTransformer):
             if isinstance(self.replacement_node, (AnnAssign, Assign)):
                 # Set default
                 if isinstance(self.replacement_node, AnnAssign):
+                    # the default slot of the ADDRESSED argument (not of an argument that
+                    # happens to be named like the replacement); defaults belong to the
+                    # trailing arguments
                     idx = next(
                         (
-                            _arg._idx
-                            for _arg in node.args.args
-                            if _arg.arg == self.replacement_node.target.id
-                            and hasattr(_arg, "_idx")
+                            pos - (len(node.args.args) - len(node.args.defaults))
+                            for pos, _arg in enumerate(node.args.args)
+                            if getattr(_arg, "_location", None) == self.search
                         ),
                         None,
                     )
+                    if idx is not None and idx < 0:
+                        idx = None  # the addressed argument has no default
                 else:
                     idx = next(
                         filter(
